@@ -1570,7 +1570,6 @@ def posonly_sigs():
 def _posonly_cases(rec, s, kind, f, w, prelude, sh):
   is_cls = kind in CLS_WRAPPERS
   fam = 'class-wrapper' if is_cls else 'functor'
-  _check_signature(rec, s, kind, f, w, prelude, case_id=f'{fam}.positional-only-parameters')
   for p, kws in sh:
     a, k = mk_args(p, kws, 10)
     src = _fmt_call(a, k)
@@ -1592,6 +1591,7 @@ def _posonly_cases(rec, s, kind, f, w, prelude, sh):
                message=f'{s.params}: {wsrc} -> {got!r}; {fsrc} -> {want!r}',
                witness=_witness(prelude, 'import bounded.c18_functor as m\n'
                                 f'got = m.call(lambda: {wsrc})\nassert m.agree({want!r}, got), got\n'))
+  _check_signature(rec, s, kind, f, w, prelude, case_id=f'{fam}.positional-only-parameters')
 
 
 def drv_keyword_names(tier, seed):
@@ -1600,19 +1600,19 @@ def drv_keyword_names(tier, seed):
       'C18', 'keywords that are not named parameters (the names of *args / **kw); positional-only parameters',
       scope=('240 signatures, one way of symbolizing a function (6 wrappers + 3 subclassed styles, '
              'rotated) and one way of wrapping a class each: a call that Python accepts ('
-             + ('3' if quick else '12') + ' seeded per signature and keyword) plus the keyword `args=` / '
+             + ('2' if quick else '12') + ' seeded per signature and keyword) plus the keyword `args=` / '
              '`kw=` (value: list, int, tuple, [], None), given at call time to an unbound functor, at '
              'call time after binding the rest (with/without override_args), at construction, to the '
              'class constructor; oracle: the same Python call (TypeError without **kw, an entry of kw '
              'with **kw); '
-             + ('40 seeded of ' if quick else 'all ') + '192 signatures with 1..3 positional-only '
+             + ('30 seeded of ' if quick else 'all ') + '192 signatures with 1..3 positional-only '
              'parameters (def f(a, /, ...)) x one function wrapper and one class wrapper: generated '
-             '__init__ signature, ' + ('10' if quick else '40') + ' seeded call shapes + every shape '
+             '__init__ signature, ' + ('6' if quick else '40') + ' seeded call shapes + every shape '
              'passing a positional-only name by keyword, at call time / construction / split'))
   r = rng(seed, 'c18-kwnames')
   fn_kinds = FUNCTOR_KINDS
   cls_kinds = list(CLS_WRAPPERS)
-  per = 3 if quick else 12
+  per = 2 if quick else 12
   for i, sig in enumerate(all_sigs()):
     kind = pick_kind(i, seed, sig, shift=2)
     if kind in SUBCLASS_KINDS and sig.vk:      # a `_call()` body only reads the extras 'y' and 'z'
@@ -1635,7 +1635,7 @@ def drv_keyword_names(tier, seed):
                     _keyword_collisions(rc, s_, kind_, f, w, prelude, plan))
   po = posonly_sigs()
   if quick:
-    po = _pick(po, r, 40)
+    po = _pick(po, r, 30)
   fnk = list(FN_WRAPPERS)
   for i, sig in enumerate(po):
     for kd in (fnk[(i + seed) % len(fnk)], cls_kinds[(i + seed) % len(cls_kinds)]):
@@ -1643,7 +1643,7 @@ def drv_keyword_names(tier, seed):
       built = try_build(rec, s, kd)
       if built is None:
         continue
-      sh = _pick([x for x in shapes(s) if x[0] <= s.n + 1], r, 10 if quick else 40)
+      sh = _pick([x for x in shapes(s) if x[0] <= s.n + 1], r, 6 if quick else 40)
       sh += [(p, tuple(kws)) for p in range(s.n + 1) for kws in
              ([nm for nm in s.names if nm not in s.pos[:p]],
               [nm for nm in s.names if nm not in s.pos[:p] and nm not in s.defaults],
